@@ -228,8 +228,8 @@ def do_composite_search(req):
         palette = [ev('PERF_THD_Data', [11, 12, 13, 1]), ev('PERF_STK_UHdr', [1, 3, 0, 0]), ev('PERF_STK_UHdr', [1, 6, 0, 0]),
                    ev('PERF_STK_UData', [0xa1, 0xa2, 0xa3, 0xa4]), ev('PERF_STK_UData', [0xb1, 0xb2, 0xb3, 0xb4]),
                    ev('PERF_STK_UData', [0xc1, 0xc2, 0, 0]), ev('PERF_STK_UHdr', [1, 4, 0, 0]),
-                   ev('MACH_SCHED', [0, 0, 0, 0])]
-        heads = [([fl, 9, 0, 0], [0, 0, 0, 0]) for fl in (0, 1, 8, 9, 0x0b)]
+                   ev('MACH_SCHED', [0, 0, 0, 0]), ev('PERF_STK_UHdr', [0x245, 2, 0, 0])]        # header flags with bits no table names
+        heads = [([fl, 9, 0, 0], [0, 0, 0, 0]) for fl in (0, 1, 8, 9, 0x0b, 0x4009, 0xffffffff)]
     tried = 0
     cases = []
     for n in range(0, 4):
